@@ -299,6 +299,9 @@ func runLabProp(c *drv.Ctx, lp *LabProp) error {
 				died++
 			}
 			ms := lp.Judge(c, pt, l)
+			if len(pt.Obs) > 0 && len(pt.Input) < 200 {
+				c.Stats.Fallback(pt.sample(nil))
+			}
 			if len(ms) > 0 {
 				nMis += len(ms)
 				if first == nil {
